@@ -240,7 +240,7 @@ def run(cx):
     for ct_, ex_ in (("int", "0"), ("float", "0.0"), ("bool", "false"), ("String", '""'), ("int", "5")):
         res = pe.emit_program(setup=[], loop=[cls["VarDecl"](name="acc", c_type=ct_, expr=ex_, global_scope=False), cls["VarAssign"](name="acc", expr="(acc)")])
         lt_ = res.text[res.text.index("void loop()"):] if res.text and "void loop()" in res.text else ""
-        r.check(f"  {ct_} acc = {ex_};" in lt_ and "static" not in lt_, f"emit/loop-local[{ct_} = {ex_}]-reinitialised-every-pass", (em, em.func("_emit_block")), f"`acc = {ex_}` at the top of the main loop is emitted as `{next((l_.strip() for l_ in lt_.split(chr(10)) if ' acc =' in l_), '?')}`: it must be a plain local initialised on every loop() pass")
+        r.check(re.search(rf"^\s*{re.escape(ct_)}\s+acc\s*=\s*{re.escape(ex_)}\s*;", lt_, re.M) is not None and "static" not in lt_, f"emit/loop-local[{ct_} = {ex_}]-reinitialised-every-pass", (em, em.func("_emit_block")), f"`acc = {ex_}` at the top of the main loop is emitted as `{next((l_.strip() for l_ in lt_.split(chr(10)) if ' acc =' in l_), '?')}`: it must be a plain local initialised on every loop() pass")
     empty = pe.emit_program(setup=[], loop=[])
     try:
         fe_ = l2.functions_of(empty.text, ["setup", "loop"])
